@@ -65,8 +65,13 @@ def gen_case(st, tier, env):
         scheme = gen.gen_scheme(w, dyadic=True)
     configs = []
     for _ in range(k.choice([3, 4, 5, 6])):
-        if k.random() < 0.5:
+        r = k.random()
+        if r < 0.4:
             a = dict(w.choice(NESTED))
+        elif r < 0.55:
+            a = gen.gen_nested_bioconsert(w, depth=2)
+            if k.random() < 0.3:
+                a = {"alg": "ParCons", "aux": a, "bound": k.choice([0, 1, 2])}
         else:
             a = gen.gen_alg(w, env)
         configs.append({"alg": a, "sched": gen.gen_sched(st.schedule)})
